@@ -296,6 +296,23 @@ Proof.
     + inversion H; reflexivity.
 Qed.
 
+Lemma drop_halves_others w k r wr j : j <> k -> get_conn j (w_conns (drop_halves w k r wr)) = get_conn j (w_conns w).
+Proof.
+  intros Hj. unfold drop_halves. destruct (get_conn k (w_conns w)) as [c|] eqn:E; [|reflexivity].
+  unfold upd_conn, with_conns, set_w. cbn [w_conns]. apply get_conn_put_other.
+  cbn [c_with_halves c_id]. apply get_conn_id in E. congruence.
+Qed.
+
+Lemma peer_disconnected_others w k j : j <> k ->
+  get_conn j (w_conns (peer_disconnected w k)) = get_conn j (w_conns w).
+Proof.
+  intros Hj. unfold peer_disconnected.
+  destruct (has_fq (w_type w)).
+  - rewrite drop_halves_others by exact Hj. unfold fq_remove, with_fq, set_w. cbn [w_conns].
+    rewrite drop_halves_others by exact Hj. reflexivity.
+  - rewrite drop_halves_others by exact Hj. reflexivity.
+Qed.
+
 Theorem req_recv_reads_requestee_only : forall w k b w' j, w_type w = REQ -> w_cur w = Some k -> conns_ok w ->
   step w ORecv = ([b], w') -> j <> k -> get_conn j (w_conns w') = get_conn j (w_conns w).
 Proof.
@@ -309,12 +326,15 @@ Proof.
   { apply poll_stream_id in Ep. apply Hok in Eg. congruence. }
   assert (Hput : get_conn j (put_conn c' (w_conns w)) = get_conn j (w_conns w))
     by (apply get_conn_put_other; exact Hid).
+  assert (Hdis : forall w0, get_conn j (w_conns w0) = get_conn j (w_conns w) ->
+                 get_conn j (w_conns (peer_disconnected w0 k)) = get_conn j (w_conns w)).
+  { intros w0 H0. rewrite peer_disconnected_others by exact Hj. exact H0. }
   destruct p as [o| |].
-  - destruct o as [i|e|s|]; try (inversion E; subst; first [reflexivity | exact Hput]).
+  - destruct o as [i|e|s|]; try (inversion E; subst; first [reflexivity | exact Hput | apply Hdis; exact Hput]).
     destruct i as [g|ps|m]; try (inversion E; subst; exact Hput).
     destruct (req_unwrap m); inversion E; subst; exact Hput.
   - inversion E; subst. exact Hput.
-  - inversion E; subst. exact Hput.
+  - inversion E; subst. apply Hdis. exact Hput.
 Qed.
 
 (* ---------------------------------------------------------------------- *)
